@@ -1034,7 +1034,10 @@ def sortCompute (c : Ctx) (db : Db) (xs : List Bytes) (isSet : Bool) (by_ : Opti
     | none => some { data := x, str := sb "0", w := .fin ⟨0, 0⟩ }     -- missing weight key counts as 0
     | some v =>
       if alpha || noSort then some { data := x, str := v, w := .fin ⟨0, 0⟩ }
-      else (sortWeight v).map fun w => { data := x, str := v, w := w }
+      else match sortWeight v with
+        | some .nan => none                      -- NaN orders nothing: refused like text (as Redis does)
+        | some w => some { data := x, str := v, w := w }
+        | none => none
   items.map fun its =>
     let hasNan := its.any fun i => match i.w with | .nan => true | _ => false
     -- stable; `a` may stay before `b` unless `b` is strictly less (ascending) / strictly greater (descending)
